@@ -44,16 +44,22 @@ def _vals(draw, n, positive=False):
 def arith_case(draw, mode):
     kind = draw(st.sampled_from(KINDS))
     shape = [draw(st.integers(1, 3)) for _ in range(draw(st.integers(0, 3)))]
-    dt = draw(st.sampled_from(['float32', 'float64'])) if mode == 'x64' else 'float32'
+    dt = draw(st.sampled_from(['float32', 'float64', 'int32'])) if mode == 'x64' else draw(st.sampled_from(['float32', 'float32', 'int32']))
     op = draw(st.sampled_from(['+', '-', '*', '/', '**', '-', '/', '**']))
+    if dt == 'int32' and op == '**':
+        op = '-'
     n = math.prod(shape)
     comps = [_vals(draw, n, positive=(op == '**')) for _ in kind]
     # make the components pairwise different so that a component mix-up is visible
     for t, c in enumerate(comps):
         c[0] = c[0] + 0.25 * t if op != '**' else c[0] + t
-    other = draw(st.sampled_from(['py_int', 'py_float', 'py_bool', 'np_f32', 'np_f64', 'np_i32', 'np_0d', 'jax_0d',
-                                  'jax_arr', 'jax_arr_b', 'same', 'same', 'other_kind', 'str', 'none', 'list', 'dict']))
-    oval = draw(st.sampled_from([2.0, 3.0, 0.5, 1.5]))
+    other = draw(st.sampled_from(['py_int', 'py_float', 'py_float', 'py_bool', 'py_complex', 'np_f32', 'np_f64', 'np_i32', 'np_0d',
+                                  'jax_0d', 'jax_arr', 'jax_arr_b', 'same', 'same', 'other_kind', 'str', 'none', 'list', 'dict']))
+    if op == '**' and other == 'py_complex':
+        other = 'py_float'
+    oval = draw(st.sampled_from([2.0, 3.0, 0.5, 1.5, 2.5]))
+    if dt == 'int32':
+        comps = [[float(int(v)) if int(v) != 0 else 1.0 for v in c] for c in comps]
     oshape = None
     ocomps = None
     if other in ('jax_arr', 'jax_arr_b'):
@@ -163,6 +169,8 @@ def _check_arith(r, mode):
     kind, shape, dt = r['kind'], tuple(r['shape']), r['dtype']
     x = _make(kind, shape, dt, r['comps'])
     xs = [np.asarray(c, dtype=np.float64).reshape(shape) for c in r['comps']]
+    if dt == 'int32':
+        xs = [np.trunc(a) for a in xs]
     f = OPS[r['op']]
     o = r['other']
     v = r['oval']
@@ -177,6 +185,9 @@ def _check_arith(r, mode):
     elif o == 'py_bool':
         other = True
         per_comp = [1.0] * len(kind)
+    elif o == 'py_complex':
+        other = complex(v, 1.0)
+        per_comp = [other] * len(kind)
     elif o == 'np_f32':
         other = np.float32(v)
         per_comp = [float(other)] * len(kind)
@@ -199,6 +210,8 @@ def _check_arith(r, mode):
     elif o == 'same':
         other = _make(kind, shape, dt, r['ocomps'])
         per_comp = [np.asarray(c, dtype=np.float64).reshape(shape) for c in r['ocomps']]
+        if dt == 'int32':
+            per_comp = [np.trunc(c) for c in per_comp]
     elif o == 'other_kind':
         other = _make(r['other_kind'], shape, dt, [[1.0] * math.prod(shape)] * len(r['other_kind']))
         expect_error = True
@@ -209,13 +222,14 @@ def _check_arith(r, mode):
     call = (lambda: f(other, x)) if refl else (lambda: f(x, other))
     classes = ['op:' + r['op'], 'other:' + o, 'reflected' if refl else 'direct']
     if expect_error:
-        must_raise(f'unsupported-operand:{o}', call, exc=(TypeError,))
+        # (a container of another kind must give TypeError; for foreign types any refusal by TypeError/ValueError counts)
+        must_raise(f'unsupported-operand:{o}', call, exc=(TypeError,) if o == 'other_kind' else (TypeError, ValueError))
         return {'nontrivial': False, 'classes': classes + ['rejected']}
     res = must_not_raise(f'arith:{r["op"]}:{o}:{"r" if refl else "d"}', call)
     if type(res) is not type(x):
         raise Violation('arith-type', f'{type(res).__name__} returned for {kind} {r["op"]} {o}')
     got = _leaves(res)
-    rtol = 2e-6 if dt == 'float32' or o in ('np_f32', 'np_0d', 'jax_0d', 'jax_arr', 'jax_arr_b') else 1e-12
+    rtol = 2e-6 if dt in ('float32', 'int32') or o in ('np_f32', 'np_0d', 'jax_0d', 'jax_arr', 'jax_arr_b') else 1e-12
     for c, g, xa, oc in zip(kind.lower(), got, xs, per_comp):
         with np.errstate(all='ignore'):
             want = f(oc, xa) if refl else f(xa, oc)
@@ -223,6 +237,10 @@ def _check_arith(r, mode):
             raise Violation(f'arith-value:{r["op"]}:{"reflected" if refl else "direct"}',
                             f'component {c}: {kind} {r["op"]} {o} ({"reflected" if refl else "direct"}) gives {g.reshape(-1)[:4]} instead of {np.asarray(want).reshape(-1)[:4]}')
     nontrivial = (refl and r['op'] in ('-', '/', '**')) or (o == 'same' and r['op'] in ('-', '/', '**'))
+    if dt == 'int32':
+        classes.append('integer_container')
+    if o == 'py_complex':
+        classes.append('complex_scalar')
     return {'nontrivial': bool(nontrivial), 'classes': classes}
 
 
@@ -357,7 +375,13 @@ def _check_factory(r, mode):
             if w == 'from_stokes_pos':
                 res = must_not_raise(w, StokesPyTree.from_stokes, *args)
             else:
-                res = must_not_raise(w, lambda: StokesPyTree.from_stokes(**{c: a for c, a in zip(kind, args)}))
+                pairs = list(zip(kind, args))
+                # keywords written in any order (rotated / reversed by the seed)
+                k_ = r['seed'] % max(1, len(pairs))
+                pairs = pairs[k_:] + pairs[:k_]
+                if r['seed'] % 2:
+                    pairs.reverse()
+                res = must_not_raise(w, lambda: StokesPyTree.from_stokes(**dict(pairs)))
         want_dt = np.result_type(*[jnp.asarray(0, dtype=dts[t]).dtype for t in used])
         want_dt = np.dtype(jnp.result_type(*[dts[t] for t in used]))
         if type(res) is not cls:
